@@ -180,3 +180,45 @@ def run(chk):
                 want = pct(L["padding"][2], True)
                 if want not in [v.strip() for v in vals]:
                     chk.property_failure(dict(case, spec_margin_left=want), "sami writer: margin-left is not the exact percentage of the absolute padding")
+
+
+def run_same_set_twice(chk):
+    """one caption set with absolute layouts, written for one video size and then for another (or for none): the second
+    output is computed from the lengths the set holds, not from what an earlier write made of them"""
+    import pycaption
+    from pycaption.exceptions import RelativizationError
+    sub = chk.sub("same_set_two_sizes")
+    WR = {"dfxp": pycaption.DFXPWriter, "sami": pycaption.SAMIWriter, "webvtt": pycaption.WebVTTWriter}
+    for i in range(24 if chk.tier == "quick" else 600):
+        first_w = ["dfxp", "sami", "webvtt"][i % 3]
+        second_w = sub.choice(["dfxp", "sami", "webvtt"])
+        level = ["language", "caption", "node"][(i // 3) % 3]
+        unit = sub.choice(["px", "px", "em", "pt"])
+        L = {"origin": ["%d%s" % (sub.choice([16, 32, 64]), unit), "%d%s" % (sub.choice([9, 18, 36]), unit)],
+             "extent": ["%d%s" % (sub.choice([160, 320]), unit), "%d%s" % (sub.choice([45, 90]), unit)]}
+        if sub.random() < 0.5:
+            L["padding"] = ["%d%s" % (sub.choice([2, 8]), unit) for _ in range(4)]
+        node = ["T", "hello", L] if level == "node" else ["T", "hello"]
+        nodes = [["S", True, {"italics": True}] + ([L] if level == "node" else []), node, ["S", False, {"italics": True}] + ([L] if level == "node" else [])]
+        desc = {"langs": [{"lang": "en-US", "layout": L if level == "language" else None,
+                           "caps": [{"start": 1000000, "end": 2000000, "nodes": nodes, "layout": L if level == "caption" else None}]}]}
+        A = {"video_width": 640, "video_height": 360}
+        B = sub.choice([{"video_width": 1280, "video_height": 720}, {"video_width": 400, "video_height": 400}, {}])
+        case = {"layout": L, "level": level, "first_write": [first_w, A], "second_write": [second_w, B]}
+        chk.case(key=("twice", json.dumps(case, sort_keys=True)), nontrivial=True); chk.count("same_set_written_for_two_sizes")
+        def outcome(writer, opts, cs):
+            try:
+                return ("ok", WR[writer](**opts).write(cs))
+            except RelativizationError:
+                return ("refused", "")
+            except Exception as e:
+                return ("err", repr(e)[:200])
+        want = outcome(second_w, B, setbuild.build(desc))
+        cs = setbuild.build(desc)
+        first = outcome(first_w, A, cs)
+        got = outcome(second_w, B, cs)
+        if first[0] != "ok":
+            chk.property_failure(dict(case, first=str(first)[:300]), "%s writer refused absolute lengths although both video dimensions were given" % first_w)
+        elif got != want:
+            chk.property_failure(dict(case, second_output=str(got)[:1500], fresh_set_output=str(want)[:1500]),
+                                 "relativization: the output for a second video size (or none) depends on an earlier write of the same caption set")
